@@ -31,17 +31,34 @@ def check(ctx):
     chosen = list(pick.values())
     if ctx['tier'] == 'thorough':
         chosen = chosen[:120]
+    # barrier objectives (+inf on part of the box): state that is only conditionally initialised shows here
+    barrier = []
+    for c in list(pick.values()):
+        if c['space'] != 'tree' and (c['kind'], 'barrier') not in {(b['kind'], 'barrier') for b in barrier}:
+            barrier.append(dict(c, objective='barrier', box='unit', lb=[0.0] * c['n_vars'], ub=[1.0] * c['n_vars'],
+                                n_agents=max(c['n_agents'], 6), n_iter=2, hyper={}))
+    chosen = chosen + barrier
     n_cross = 8 if ctx['tier'] == 'quick' else len(chosen)
     workloads = [dict(c, adv=0.0, hook='observer') for c in cfgs if c['kind'] in ('PSO', 'ABC', 'GP')][:3]
+    # a workload that leaves non-zero garbage behind in freed array memory of the shapes the run will allocate
+    workloads = [dict(kind='PSO', space='search', n_agents=6, n_vars=c_['n_vars'], n_dims=1, n_iter=2, box='wide',
+                      lb=[-7.25] * c_['n_vars'], ub=[9.5] * c_['n_vars'], objective='sphere', rettype='py', hyper={}, adv=0.0,
+                      hook='observer', store_best_only=False, seed=11) for c_ in cfgs[:1]] + workloads
     for n, c in enumerate(chosen):
         rp = dict(how='twice', cfg=c)
-        if n < n_cross:
+        # the preceding workload: the same kind of task (same shapes, so freed memory is re-used) with another
+        # seed, objective and box, followed by unrelated optimisers
+        same_shape = dict(c, seed=c['seed'] + 17, objective='positive', hyper={})
+        if c['space'] != 'hyper':
+            same_shape.update(lb=[-7.25] * c['n_vars'], ub=[9.5] * c['n_vars'], box='wide')
+        wl = [same_shape] + workloads[:2]
+        if n < n_cross or c['objective'] == 'barrier':
             a = child(c, [], 1)
-            b = child(c, workloads[:2], 2)
+            b = child(c, wl, 2)
             mode = 'cross-process'
         else:
             a = c05_child.digest_run(c, [])
-            b = c05_child.digest_run(c, workloads[:2])
+            b = c05_child.digest_run(c, wl)
             mode = 'in-process'
         if a['digest'] != b['digest'] or a['error'] != b['error']:
             C.issue('not-reproducible', 'oracle', rp, mode=mode, first=a, second=b)
